@@ -87,6 +87,7 @@ LastRowOK(e) ==
   /\ w.has /\ w.iter = e.iterations
   /\ Within(w.pres, w.pres_lo, w.pres_hi) /\ Within(w.dres, w.dres_lo, w.dres_hi)
   /\ ~w.infeas => (Within(w.pcost, w.pcost_lo, w.pcost_hi) /\ Within(w.dcost, w.dcost_lo, w.dcost_hi))
+  /\ Within(w.gap, w.gap_lo, w.gap_hi)                    \* the gap column is the smaller of the absolute and the relative gap
 
 CaseOK(e) ==
   /\ e.same_stream /\ e.same_file /\ e.len_buffer > 0
@@ -101,7 +102,11 @@ CaseOK(e) ==
 
 TCase == l <= Len(Rec) /\ Rec[l].ev = "PrintCase" /\ CaseOK(Rec[l]) /\ l' = l + 1
          /\ UNCHANGED <<target, verbose, logs, hist>>
-TSpec == DInit /\ [][TCase]_pvars
+\* the sink is silent for the process too (nothing on its real standard output); the stdout target is not
+TSink == l <= Len(Rec) /\ Rec[l].ev = "SinkChild" /\ Rec[l].ok
+         /\ (IF Rec[l].mode = "sink" THEN Rec[l].stdout_len = 0 ELSE Rec[l].stdout_len > 0)
+         /\ l' = l + 1 /\ UNCHANGED <<target, verbose, logs, hist>>
+TSpec == DInit /\ [][TCase \/ TSink]_pvars
 TraceAccepted ==
   LET n == TLCGet("stats").diameter - 1 IN
   IF n = Len(Rec) THEN TRUE
